@@ -26,7 +26,8 @@ EXTENDS MxProps, Json, IOUtils
 
 CONSTANTS MaxOps,       \* bound on the number of public operations in a history
           MaxDepthC,    \* configured recursion limit (0 = unlimited for this instance)
-          Dump          \* TRUE: print maximal histories for replay
+          Dump,         \* TRUE: print maximal histories for replay
+          Pattern       \* which histories to explore: "any" | "call-edit-edit" | "call-flag-edit"
 
 \* The instance (initial definitions and the vocabulary of operations) is a
 \* JSON file written by harness/instances.py -- the same file the harness
@@ -404,7 +405,16 @@ ExactDiscard ==
 
 -----------------------------------------------------------------------------
 (* spec -> code: print every maximal history once (BFS) for replay          *)
+\* shapes of histories worth replaying one level deeper than the exhaustive bound:
+\* an evaluation followed by two edits (the final sweep of the harness re-queries)
+KindOK(i, k) ==
+    CASE Pattern = "any" -> TRUE
+      [] Pattern = "call-edit-edit" -> (i = 2) = (k = "call")
+      [] Pattern = "call-flag-edit" -> IF i = 2 THEN k = "call"
+                                       ELSE IF i = 3 THEN k = "set_cached" ELSE k # "call"
+      [] OTHER -> TRUE
+PrefixOK == \A i \in 2..Len(hist) : KindOK(i, hist[i].op)
 Frontier == mode = "idle" /\ Len(hist) = MaxOps + 1
 DumpHist == (Dump /\ Frontier) => PrintT(<<"MBT", ToJson(hist)>>)
-Bound    == DumpHist
+Bound    == PrefixOK /\ DumpHist
 =============================================================================
